@@ -122,6 +122,16 @@ def oneshot(rng, T, roots, fail=(), gated=True, tag='os', cap=None, hang_s=None)
         spec[t] = {'kind': s['kind'], 'deps': s['deps'], 'gated': gated and s['kind'] == 'build',
                    'status': 1 if t in fail else 0}
     proj = blackbox.Project(d, spec)
+    # recorded state of targets outside the closure must never be touched (C08): plant a file for each
+    clo0 = closure(T, roots)
+    planted = {}
+    os.makedirs(os.path.join(d, '.zinoma'), exist_ok=True)
+    for t in T:
+        if t not in clo0:
+            pth = os.path.join(d, '.zinoma', t + '.checksums')
+            with open(pth, 'wb') as f:
+                f.write(b'planted-' + t.encode())
+            planted[t] = pth
     env = {}
     if cap:
         env['ZINOMA_VERIF_CAP'] = str(cap)
@@ -165,6 +175,13 @@ def oneshot(rng, T, roots, fail=(), gated=True, tag='os', cap=None, hang_s=None)
                 bad('C08', '%s executed %d times in one one-shot run' % (t, n))
             if t not in clo:
                 bad('C08', '%s is outside the closure of the requested targets but was executed' % t)
+        for t, pth in planted.items():
+            try:
+                okp = open(pth, 'rb').read() == b'planted-' + t.encode()
+            except FileNotFoundError:
+                okp = False
+            if not okp:
+                bad('C08', 'recorded state of %s (outside the closure) was touched' % t)
         # C07: no dependent of a failed target starts; failure => non-zero exit naming a failing target
         for t in starts:
             if tdeps(T, t) & failed:
